@@ -31,6 +31,7 @@ import (
 	"database/sql"
 	"fmt"
 	"path/filepath"
+	"strings"
 	"sync"
 	"time"
 
@@ -54,6 +55,13 @@ type gateCtl struct {
 	active   bool
 	arrivals chan *gateArrival
 	points   map[string]bool
+	// barrier mode: the first [need] arrivals at [bpoint] wait for each other
+	// (or for [bwait]), later arrivals pass
+	bpoint  string
+	need    int
+	arrived int
+	bwait   time.Duration
+	open    chan struct{}
 }
 
 var gate = &gateCtl{arrivals: make(chan *gateArrival, 64), points: map[string]bool{}}
@@ -65,6 +73,21 @@ func (g *gateCtl) isActive(p string) bool {
 }
 
 func (g *gateCtl) arrive(p string) {
+	g.mu.Lock()
+	if g.bpoint != "" && g.bpoint == p && g.arrived < g.need {
+		g.arrived++
+		ch, wait := g.open, g.bwait
+		if g.arrived == g.need {
+			close(g.open)
+		}
+		g.mu.Unlock()
+		select {
+		case <-ch:
+		case <-time.After(wait):
+		}
+		return
+	}
+	g.mu.Unlock()
 	if !g.isActive(p) {
 		return
 	}
@@ -95,11 +118,18 @@ func authorizerFor() func(int, string, string, string) int {
 				gate.arrive("I")
 			} else if a1 == "mailboxes" {
 				gate.arrive("C")
+			} else if a1 == "domains" {
+				gate.arrive("D") // CreateDomain (shared database)
 			}
 		case sqliteRead:
 			if kind == sqliteSelect && a1 == "mailboxes" && a2 == "uid_next" {
 				kind = 0 // one arrival per statement
 				gate.arrive("R")
+			} else if kind == sqliteSelect && a1 == "mailboxes" && a2 == "" {
+				// SELECT COUNT(*) FROM mailboxes (createDefaultMailboxes): a table
+				// referenced without any column
+				kind = 0
+				gate.arrive("N")
 			}
 		}
 		return 0
@@ -117,15 +147,30 @@ func opGateInstall(w *World, op Op) Obs {
 		return Obs{"error": err.Error()}
 	}
 	n := op.num("conns", 8)
-	udb.SetMaxOpenConns(n)
-	udb.SetMaxIdleConns(n)
+	if err := installOn(udb, n); err != nil {
+		return Obs{"error": err.Error()}
+	}
+	return Obs{"ok": true, "conns": n}
+}
+
+// installOn pins the pool of [d] to n connections and registers the
+// authorizer on every one of them.
+func installOn(d *sql.DB, n int) error {
+	d.SetMaxOpenConns(n)
+	d.SetMaxIdleConns(n)
 	ctx := context.Background()
 	var held []*sql.Conn
-	for i := 0; i < n; i++ {
-		c, err := udb.Conn(ctx)
-		if err != nil {
-			return Obs{"error": err.Error()}
+	defer func() {
+		for _, c := range held {
+			_ = c.Close()
 		}
+	}()
+	for i := 0; i < n; i++ {
+		c, err := d.Conn(ctx)
+		if err != nil {
+			return err
+		}
+		held = append(held, c)
 		err = c.Raw(func(dc interface{}) error {
 			sc, ok := dc.(*sqlite3.SQLiteConn)
 			if !ok {
@@ -135,12 +180,19 @@ func opGateInstall(w *World, op Op) Obs {
 			return nil
 		})
 		if err != nil {
-			return Obs{"error": err.Error()}
+			return err
 		}
-		held = append(held, c)
 	}
-	for _, c := range held {
-		_ = c.Close()
+	return nil
+}
+
+// gate_install_shared: the same for the shared database handle of a manager
+// (domains, users): {"op":"gate_install_shared","separate_mgr":bool}
+func opGateInstallShared(w *World, op Op) Obs {
+	mgr := w.deliveryMgr(op.boolean("separate_mgr"))
+	n := op.num("conns", 8)
+	if err := installOn(mgr.GetSharedDB(), n); err != nil {
+		return Obs{"error": err.Error()}
 	}
 	return Obs{"ok": true, "conns": n}
 }
@@ -385,7 +437,65 @@ func opWriterLock(w *World, op Op) Obs {
 	return Obs{"ok": true}
 }
 
+// hook_all: every SQLite connection opened from now on to a per-user / role
+// store (by ANY DBManager of this process) gets the authorizer at connect
+// time, through the ConnectHook of the registered "sqlite3" driver object.
+// This reaches the statements of the FIRST open of a store (schema
+// initialisation, default mailboxes), which gate_install cannot.
+func opHookAll(w *World, op Op) Obs {
+	drv, ok := w.mgr.GetSharedDB().Driver().(*sqlite3.SQLiteDriver)
+	if !ok {
+		return Obs{"error": "registered driver is not *sqlite3.SQLiteDriver"}
+	}
+	drv.ConnectHook = func(c *sqlite3.SQLiteConn) error {
+		base := filepath.Base(c.GetFilename("main"))
+		if strings.HasPrefix(base, "user_db_") || strings.HasPrefix(base, "role_db_") {
+			c.RegisterAuthorizer(authorizerFor())
+		}
+		return nil
+	}
+	return Obs{"ok": true}
+}
+
+// barrier: like conc, but the first [need] sessions that reach statement
+// [point] wait there for each other (at most wait_ms), so that they overlap
+// inside the window that starts with it.
+// {"op":"barrier","point":"N","need":2,"wait_ms":1500,"threads":[...]}
+func opBarrier(w *World, op Op) Obs {
+	gate.mu.Lock()
+	gate.bpoint = op.str("point")
+	gate.need = op.num("need", 2)
+	gate.arrived = 0
+	gate.bwait = time.Duration(op.num("wait_ms", 1500)) * time.Millisecond
+	gate.open = make(chan struct{})
+	gate.mu.Unlock()
+	res := opConc(w, op)
+	gate.mu.Lock()
+	res["arrived"] = gate.arrived
+	gate.bpoint = ""
+	gate.mu.Unlock()
+	return res
+}
+
+// sql_exec: preparation of a scenario only (never part of what is judged):
+// run one writing statement on a store file through a private connection.
+func opSQLExec(w *World, op Op) Obs {
+	d, err := sql.Open("sqlite3", "file:"+filepath.Join(w.dataDir, op.str("store")+".db")+"?_busy_timeout=5000")
+	if err != nil {
+		return Obs{"error": err.Error()}
+	}
+	defer d.Close()
+	if _, err := d.Exec(op.str("q")); err != nil {
+		return Obs{"error": err.Error()}
+	}
+	return Obs{"ok": true}
+}
+
 func init() {
+	register("sql_exec", opSQLExec)
+	register("hook_all", opHookAll)
+	register("gate_install_shared", opGateInstallShared)
+	register("barrier", opBarrier)
 	register("conc", opConc)
 	register("gate_install", opGateInstall)
 	register("gated", opGated)
